@@ -81,6 +81,12 @@ func WithExpireAfterDuration(d time.Duration) PolicyOption {
 	}
 }
 
+// sharedIKCacheEnabled reports whether sessions of a factory use the single shared Intermediate Key cache.
+// SharedIntermediateKeyCache is ignored if CacheIntermediateKeys is disabled.
+func (p *CryptoPolicy) sharedIKCacheEnabled() bool {
+	return p.SharedIntermediateKeyCache && p.CacheIntermediateKeys
+}
+
 // WithNoCache disables caching of both System and Intermediate Keys.
 func WithNoCache() PolicyOption {
 	return func(policy *CryptoPolicy) {
